@@ -16,17 +16,23 @@ package main
 // Line: 20 routine nargs mutated[nargs] det conc callIndex seedLow32 size
 
 import (
+	"bytes"
 	"encoding/json"
 	"fmt"
 	"math"
 	"math/rand"
+	"os"
+	"os/exec"
 	"sort"
+	"strconv"
+	"strings"
 	"sync"
 
 	"github.com/aclements/go-moremath/fit"
 	"github.com/aclements/go-moremath/graph"
 	"github.com/aclements/go-moremath/graph/graphalg"
 	"github.com/aclements/go-moremath/graph/graphout"
+	"github.com/aclements/go-moremath/mathx"
 	"github.com/aclements/go-moremath/scale"
 	"github.com/aclements/go-moremath/stats"
 	"github.com/aclements/go-moremath/vec"
@@ -67,8 +73,20 @@ func ib(xs []int) []uint64 {
 	}
 	return r
 }
-func snapF(p *[]float64) func() []uint64 { return func() []uint64 { return fb(*p) } }
-func snapI(p *[]int) func() []uint64     { return func() []uint64 { return ib(*p) } }
+// snapshots cover the WHOLE backing array (up to cap), so a write into the spare capacity of
+// an argument (e.g. an append that does not reallocate) is seen as well; the length is
+// part of the snapshot
+// float slices registered by the snapshot constructors since the last reset (build time is
+// single-threaded); used for the buffer-reuse history step
+var c20Floats []*[]float64
+
+func snapF(p *[]float64) func() []uint64 {
+	c20Floats = append(c20Floats, p)
+	return func() []uint64 { return append([]uint64{uint64(len(*p))}, fb((*p)[:cap(*p)])...) }
+}
+func snapI(p *[]int) func() []uint64 {
+	return func() []uint64 { return append([]uint64{uint64(len(*p))}, ib((*p)[:cap(*p)])...) }
+}
 func snapNone() []uint64                 { return nil }
 func flatG(g graph.IntGraph) []uint64 {
 	var r []uint64
@@ -112,7 +130,13 @@ func errBits(err error) uint64 {
 
 // unsorted data with ties, so that any internal sort or reordering is visible
 func c20Data(rng *rand.Rand, n int) []float64 {
-	xs := make([]float64, n)
+	// spare capacity (filled with a sentinel) behind the visible part
+	spare := rng.Intn(n + 2)
+	back := make([]float64, n+spare)
+	for i := range back {
+		back[i] = -12345.5
+	}
+	xs := back[:n]
 	for i := range xs {
 		xs[i] = float64(rng.Intn(2*n+3)) / 4
 	}
@@ -514,6 +538,18 @@ func init() {
 			return []uint64{math.Float64bits(stats.BandwidthScott(stats.Sample{Xs: xs})), math.Float64bits(stats.BandwidthSilverman(stats.Sample{Xs: xs}))}
 		}
 	})
+	two("vec.Concat/prefix-slices", func(xs, ys []float64, rng *rand.Rand) func() []uint64 {
+		// first argument is a short prefix of a longer array: plenty of spare capacity behind it
+		k, m := 1+rng.Intn(2), 1+rng.Intn(2)
+		return func() []uint64 {
+			c := vec.Concat(xs[:k], ys[:m], ys[len(ys)-1:])
+			r := fb(c)
+			for i := range c { // the result must be fresh
+				c[i] = -7
+			}
+			return r
+		}
+	})
 	two("vec.Map/Vectorize/Concat/Sum", func(xs, ys []float64, rng *rand.Rand) func() []uint64 {
 		return func() []uint64 {
 			f := func(x float64) float64 { return 2*x + 1 }
@@ -576,6 +612,39 @@ func init() {
 				math.Float64bits(stats.InvCDF(nd)(y)), math.Float64bits(b.CDF(4)), math.Float64bits(h.PMF(2)), math.Float64bits(t.CDF(y)),
 				math.Float64bits(nd.PDF(y)), math.Float64bits(stats.Rand(t)(rand.New(rand.NewSource(7)))),
 			}
+		}})
+	}})
+	// a BiGraph built once and shared by all goroutines (IDom, DomFrontier and In read it)
+	add(c20Call{"graphalg.IDom/DomFrontier on a shared BiGraph", 10, 1, func(rng *rand.Rand, n int) func() *c20Inst {
+		g := c20Graph(rng, n)
+		bg := graph.MakeBiGraph(g)
+		return one(&c20Inst{[]func() []uint64{snapG(g)}, func() []uint64 {
+			idom := graphalg.IDom(bg, 0)
+			out := ib(idom)
+			for _, f := range graphalg.DomFrontier(bg, 0, idom) {
+				out = append(out, uint64(len(f)))
+				out = append(out, ib(f)...)
+			}
+			for i := 0; i < bg.NumNodes(); i++ {
+				out = append(out, ib(bg.In(i))...)
+			}
+			return out
+		}})
+	}})
+	// scalar functions whose results must not depend on what was evaluated before
+	add(c20Call{"mathx.{Choose,Lchoose,BetaInc,GammaInc}+Hypergeometric/Binomial", 11, 2, func(rng *rand.Rand, n int) func() *c20Inst {
+		N := 21 + rng.Intn(8) // few n, so that (n,k) and (n,n-k) recur across cases
+		k := rng.Intn(N + 1)
+		K, D := rng.Intn(N+1), rng.Intn(N+1)
+		p := float64(rng.Intn(17)) / 16
+		none := []float64(nil)
+		return one(&c20Inst{[]func() []uint64{snapF(&none), snapF(&none)}, func() []uint64 {
+			h := stats.HypergeometicDist{N: N, K: K, Draws: D}
+			b := stats.BinomialDist{N: N, P: p}
+			return []uint64{math.Float64bits(mathx.Choose(N, k)), math.Float64bits(mathx.Lchoose(N, k)),
+				math.Float64bits(h.PMF(float64(k % (D + 1)))), math.Float64bits(h.CDF(float64(k % (D + 1)))),
+				math.Float64bits(b.PMF(float64(k))), math.Float64bits(b.CDF(float64(k))),
+				math.Float64bits(mathx.BetaInc(p, float64(k)+0.5, 2.5)), math.Float64bits(mathx.GammaInc(float64(k)+0.5, 3*p))}
 		}})
 	}})
 	// ---- routine 12 / 25: KDE with the bandwidth set / lazily filled
@@ -783,6 +852,34 @@ func c20Find(name string) (int, *c20Call) {
 	return -1, nil
 }
 
+func hashU(r []uint64) uint64 {
+	h := uint64(1469598103934665603)
+	for _, v := range r {
+		for b := 0; b < 8; b++ {
+			h ^= (v >> (8 * uint(b))) & 0xff
+			h *= 1099511628211
+		}
+	}
+	return h >> 1 // keep it positive when read back as a signed integer
+}
+
+// c20FreshRef runs the case in a fresh child process (one per case, so the child has no
+// history whatsoever) and returns the hash of its result.
+var c20FreshRef = func(raw []byte) (uint64, error) {
+	cmd := exec.Command(os.Args[0], "run", "C20")
+	cmd.Env = append(os.Environ(), "C20_FRESH=1")
+	cmd.Stdin = bytes.NewReader(append(append([]byte{}, raw...), '\n'))
+	out, err := cmd.Output()
+	if err != nil {
+		return 0, fmt.Errorf("fresh-process reference failed: %v", err)
+	}
+	f := strings.Fields(string(out))
+	if len(f) < 2 || f[0] != "14" {
+		return 0, fmt.Errorf("fresh-process reference: unexpected output %q", string(out))
+	}
+	return strconv.ParseUint(f[1], 16, 64)
+}
+
 const c20Threads = 16
 
 // a panic of the code under test is a result like any other (it must be the same
@@ -810,7 +907,9 @@ func c20Run(raw []byte) (*Line, error) {
 	}
 	mk := func() func() *c20Inst { return call.build(rand.New(rand.NewSource(c.Seed)), c.Size) }
 	// 1. mutation
+	c20Floats = nil
 	inst := mk()()
+	floats := c20Floats
 	if len(inst.args) != call.nargs {
 		return nil, fmt.Errorf("table error: %s tracks %d arrays, routine has %d", call.name, len(inst.args), call.nargs)
 	}
@@ -819,6 +918,12 @@ func c20Run(raw []byte) (*Line, error) {
 		before[i] = a()
 	}
 	r1 := c20Call1(inst)
+	if os.Getenv("C20_FRESH") == "1" {
+		// reference mode: this process has made no other call; report only a hash of the result
+		l := &Line{}
+		l.I(20).U(hashU(r1))
+		return l, nil
+	}
 	mutated := make([]bool, len(inst.args))
 	for i, a := range inst.args {
 		mutated[i] = !eqU(before[i], a())
@@ -830,6 +935,31 @@ func c20Run(raw []byte) (*Line, error) {
 		c20Call1(o.build(rand.New(rand.NewSource(hr.Int63())), 3+hr.Intn(20))())
 	}
 	det := eqU(r1, c20Call1(mk()()))
+	// ... also when the SAME buffers held different data during an earlier call (a cache keyed
+	// by slice identity would go stale): overwrite the argument arrays in place, call, restore
+	// the original contents, call again
+	if det && call.routine < 20 {
+		saved := make([][]float64, len(floats))
+		for i, p := range floats {
+			saved[i] = append([]float64(nil), (*p)...)
+			for j := range *p {
+				(*p)[j] = saved[i][len(saved[i])-1-j]*0.5 + float64(j%3)
+			}
+		}
+		c20Call1(inst)
+		for i, p := range floats {
+			copy(*p, saved[i])
+		}
+		det = eqU(r1, c20Call1(inst))
+	}
+	// ... and the result must be what a FRESH process (no call made before) computes
+	if det && c20FreshRef != nil && os.Getenv("C20_NOFRESH") != "1" {
+		h, err := c20FreshRef(raw)
+		if err != nil {
+			return nil, err
+		}
+		det = h == hashU(r1)
+	}
 	// 3. schedules: 16 goroutines on shared inputs
 	fac := mk()
 	insts := make([]*c20Inst, c20Threads)
@@ -891,6 +1021,11 @@ func c20Gen(tier string, rng *rand.Rand, emit func(interface{})) {
 				size = 30 + rng.Intn(120)
 			}
 			emit(c20Case{Call: c.name, Seed: rng.Int63(), Size: size})
+			if strings.HasPrefix(c.name, "mathx.") { // scalar calls are cheap: many more parameter draws
+				for x := 0; x < 15; x++ {
+					emit(c20Case{Call: c.name, Seed: rng.Int63(), Size: size})
+				}
+			}
 		}
 	}
 }
